@@ -40,3 +40,25 @@ package encoding
 //@     before[decompresses_into_the_emptied_pooled_buffer] arg(0) == c.decompressor && arg(1) == compressed && len(arg(2)) == 0 && arg(2) == (*buf)[0:0]
 //@   at Decode 2
 //@     before[decodes_exactly_what_was_decompressed] res(DecodeAll, 1, 1) == nil && arg(1) == res(DecodeAll, 1, 0) && arg(2) == t
+
+// The plain CBOR codec: Encode returns the bytes the value's own MarshalCBOR wrote, Decode lets the value's own
+// UnmarshalCBOR read exactly the given bytes. (Checked on the chain exchange instantiation.)
+//@ func github.com/filecoin-project/go-f3/internal/encoding.(*CBOR[*Message]).Encode[*github.com/filecoin-project/go-f3/chainexchange.Message]
+//@   property C14
+//@   modifies auto
+//@   maypanic
+//@   at MarshalCBOR 1
+//@     before[the_value_encodes_itself] arg(0) == m
+//@   at return 2
+//@     before[the_encoding_is_what_was_written] arg(1) == nil && res(MarshalCBOR, 1) == nil && arg(0) == res(Bytes, 1) && argOf(Bytes, 1, 0) == argOf(MarshalCBOR, 1, 1)
+//@   at return 1
+//@     before[a_failed_encoding_yields_no_bytes] arg(1) != nil && len(arg(0)) == 0
+
+//@ func github.com/filecoin-project/go-f3/internal/encoding.(*CBOR[*Message]).Decode[*github.com/filecoin-project/go-f3/chainexchange.Message]
+//@   property C14
+//@   modifies auto
+//@   maypanic
+//@   at UnmarshalCBOR 1
+//@     before[the_value_decodes_itself_from_exactly_the_given_bytes] arg(0) == t && arg(1) == res(NewReader, 1) && argOf(NewReader, 1, 0) == v
+//@   at return 0
+//@     before[the_decoders_verdict_is_returned] arg(0) == res(UnmarshalCBOR, 1)
